@@ -188,4 +188,7 @@ def null_space(A: np.ndarray) -> np.ndarray:
                 vec[j] = A_rref[k, i]
                 k += 1
             out.append(vec % 2)
+    if len(out) == 0:
+        # trivial kernel: return an empty, well-typed basis instead of a float array of shape (0,)
+        return np.zeros((0, cols), dtype=np.int8)
     return np.array(out)
